@@ -3,7 +3,9 @@
 //! The observation carries the bit patterns of H and Q; the property's oracle (exact rationals from
 //! those bits: QᵀQ = I, Q H Qᵀ = A, zeros below the first sub-diagonal, n ≤ 2 unchanged) lives in
 //! tools/props/c14.py.  The verdicts decided here are the ones about the outcome kind, plus: the borrowed input is
-//! unchanged after the call and a second call on it returns the same bits (no state between calls).
+//! unchanged after the call and a second call on it returns the same bits (no state between calls); the same numbers
+//! as an `Arr2D` with another history (`histories`) and the empty shapes that exist only as `&Arr2D` (`empty_forms`)
+//! answer the same.
 use crate::util::*;
 use spindalis::reduction::matrix::hessenberg_reduction;
 use spindalis::solvers::SolverError;
@@ -30,44 +32,145 @@ fn show(a: &Arr2D<f64>) -> String {
     s
 }
 
+/// canonical observation of one call
+fn observe(a: &Arr2D<f64>) -> String {
+    match catch(|| hessenberg_reduction(a)) {
+        None => "panic".into(),
+        Some(Ok((hm, q))) => format!("ok {} {}", show(&hm), show(&q)),
+        Some(Err(SolverError::NonSquareMatrix)) => "err nonsquare".into(),
+        Some(Err(e)) => format!("err other {e:?}"),
+    }
+}
+
+/// the same h x w numbers as an `Arr2D` with a different HISTORY: built by `from_flat` from a short slice (the rest
+/// padded with NaN, then overwritten) and from the full slice, reshaped from a single row and from a single column,
+/// cloned INTO an existing larger / smaller object (`clone_from`), transposed twice (`transpose` + `transpose_mut`),
+/// converted from nested vectors, passed through `map`.  The function takes `&Arr2D<f64>`: all of these are the same
+/// matrix and must give the same answer bit for bit.
+fn histories(h: usize, w: usize, v: &[f64]) -> Vec<(&'static str, Arr2D<f64>)> {
+    let mut out: Vec<(&'static str, Arr2D<f64>)> = Vec::new();
+    let src = to_arr(h, w, v);
+    if h * w > 0 {
+        if let Ok(mut a) = Arr2D::from_flat(&v[..(h * w) / 2], f64::NAN, h, w) {
+            for i in 0..h {
+                for j in 0..w {
+                    a[(i, j)] = v[i * w + j];
+                }
+            }
+            out.push(("from_flat of a short slice (padded), then filled", a));
+        }
+        if let Ok(a) = Arr2D::from_flat(v, f64::NAN, h, w) {
+            out.push(("from_flat", a));
+        }
+        if let Ok(mut a) = Arr2D::from_flat(v, f64::NAN, 1, h * w) {
+            if a.reshape(h).is_ok() {
+                out.push(("one row reshaped", a));
+            }
+        }
+        if let Ok(mut a) = Arr2D::from_flat(v, f64::NAN, h * w, 1) {
+            if a.reshape(h).is_ok() {
+                out.push(("one column reshaped", a));
+            }
+        }
+        let nested: Vec<Vec<f64>> = (0..h).map(|i| v[i * w..(i + 1) * w].to_vec()).collect();
+        if let Ok(a) = Arr2D::try_from(nested) {
+            out.push(("TryFrom<Vec<Vec<f64>>>", a));
+        }
+    }
+    let mut big = Arr2D::full(f64::NAN, h + 3, w + 2);
+    big.clone_from(&src);
+    out.push(("clone_from into a larger object", big));
+    let mut small = Arr2D::full(f64::NAN, 1, 1);
+    small.clone_from(&src);
+    out.push(("clone_from into a 1x1 object", small));
+    let mut t = src.transpose();
+    t.transpose_mut();
+    out.push(("transpose, then transpose_mut", t));
+    out.push(("map(identity)", src.map(|x| *x)));
+    out
+}
+
+/// degenerate shapes that only exist as `&Arr2D`: N empty rows (N x 0, from an array of empty arrays or from nested
+/// empty vectors) and their transposes (0 x N, by `transpose` and by `transpose_mut`)
+fn empty_forms(h: usize, w: usize) -> Vec<(&'static str, Arr2D<f64>)> {
+    let n = h.max(w);
+    if h.min(w) != 0 || n == 0 {
+        return Vec::new();
+    }
+    macro_rules! rows {
+        ($($k:literal),*) => {
+            match n {
+                $($k => Some(Arr2D::from(&[[0f64; 0]; $k])),)*
+                _ => None,
+            }
+        };
+    }
+    let mut tall: Vec<(&'static str, Arr2D<f64>)> = Vec::new();
+    if let Some(a) = rows!(1, 2, 3, 4, 5, 6, 7, 8, 9, 10) {
+        tall.push(("an array of N empty arrays", a));
+    }
+    if let Ok(a) = Arr2D::try_from(vec![Vec::<f64>::new(); n]) {
+        tall.push(("N empty nested vectors", a));
+    }
+    if w == 0 {
+        return tall;
+    }
+    let mut flat = Vec::new();
+    for (_, a) in tall {
+        flat.push(("N empty rows, transposed", a.transpose()));
+        let mut b = a.clone();
+        b.transpose_mut();
+        flat.push(("N empty rows, transpose_mut", b));
+    }
+    flat
+}
+
 pub fn run(line: &str) -> Obs {
     let mut t = Toks::new(line);
     let cmd = t.tok();
     assert_eq!(cmd, "hess", "unknown C14 request {cmd}");
     let (h, w, v) = t.mat_f64();
     let a = to_arr(h, w, &v);
-    match catch(|| hessenberg_reduction(&a)) {
-        None => Obs::with("panic".into(), Err("hessenberg_reduction panicked".into())),
-        Some(Ok((hm, q))) => {
-            let first = format!("ok {} {}", show(&hm), show(&q));
-            // the input is borrowed: it must still be what was passed, and a second call on it must give the same
-            // bits (no state carried from one call to the next)
-            let untouched = (0..h).all(|i| (0..w).all(|j| a[(i, j)].to_bits() == v[i * w + j].to_bits()));
-            let again = match catch(|| hessenberg_reduction(&a)) {
-                Some(Ok((h2, q2))) => format!("ok {} {}", show(&h2), show(&q2)),
-                _ => "different outcome".into(),
-            };
-            let verdict = if h != w {
-                Err(format!("non-square {h}x{w} input accepted"))
-            } else if !untouched {
-                Err("the borrowed input matrix was modified".into())
-            } else if again != first {
-                Err("a second call on the same input returned a different result".into())
-            } else {
-                Ok(())
-            };
-            Obs::with(first, verdict)
+    let first = observe(&a);
+    let mut verdict = if first == "panic" {
+        Err("hessenberg_reduction panicked".into())
+    } else if first.starts_with("ok") {
+        // the input is borrowed: it must still be what was passed, and a second call on it must give the same
+        // bits (no state carried from one call to the next)
+        let untouched = (0..h).all(|i| (0..w).all(|j| a[(i, j)].to_bits() == v[i * w + j].to_bits()));
+        if h != w {
+            Err(format!("non-square {h}x{w} input accepted"))
+        } else if !untouched {
+            Err("the borrowed input matrix was modified".into())
+        } else if observe(&a) != first {
+            Err("a second call on the same input returned a different result".into())
+        } else {
+            Ok(())
         }
-        Some(Err(SolverError::NonSquareMatrix)) => {
-            let verdict = if h == w { Err(format!("square {h}x{w} input rejected")) } else { Ok(()) };
-            Obs::with("err nonsquare".into(), verdict)
-        }
+    } else if h == w {
         // "non-square input is rejected": the statement names no error kind, so any `Err` is a rejection
-        Some(Err(e)) => {
-            let verdict = if h == w { Err(format!("square {h}x{w} input rejected: {e:?}")) } else { Ok(()) };
-            Obs::with(format!("err other {e:?}"), verdict)
+        Err(format!("square {h}x{w} input rejected: {}", &first[4..]))
+    } else {
+        Ok(())
+    };
+    // the same matrix with another history answers the same (two refusals agree whatever their kind)
+    if verdict.is_ok() {
+        let mut forms = histories(h, w, &v);
+        forms.extend(empty_forms(h, w));
+        for (name, b) in forms {
+            if (b.height, b.width) != (h, w) {
+                verdict = Err(format!("harness: the form `{name}` has shape {}x{}, expected {h}x{w}", b.height, b.width));
+                break;
+            }
+            let o = observe(&b);
+            if o != first && !(o.starts_with("err") && first.starts_with("err")) {
+                verdict = Err(format!("the same {h}x{w} matrix built as `{name}` answers `{}` but the plain one answers `{}`",
+                    &o[..o.len().min(60)], &first[..first.len().min(60)]));
+                break;
+            }
         }
     }
+    Obs::with(first, verdict)
 }
 
 // ------------------------------------------------------------------------------------ generators
@@ -262,6 +365,261 @@ fn family(rng: &mut Rng, n: usize, kind: u64) -> Vec<f64> {
     a
 }
 
+// ------------------------------------------------------------------ hardening 4: near-structure families
+
+/// an exactly structured matrix of order n; `base` selects the structure
+fn structured(rng: &mut Rng, n: usize, base: u64) -> Vec<f64> {
+    let fl = rng.below(4);
+    let mut a = dense(rng, n, fl);
+    let at = |i: usize, j: usize| i * n + j;
+    // no exact zeros in the dense part: a pair (x, 0) is a structural difference, not a near miss
+    for x in a.iter_mut() {
+        if *x == 0.0 {
+            *x = 1.0;
+        }
+    }
+    match base {
+        0 | 1 => {
+            // exactly symmetric, dense (1: B + Bᵀ of an integer table, the test-suite style)
+            if base == 1 {
+                for x in a.iter_mut() {
+                    *x = (*x * 3.0).round() + if rng.chance(1, 2) { 0.5 } else { 1.0 };
+                }
+            }
+            for i in 0..n {
+                for j in 0..i {
+                    a[at(i, j)] = a[at(j, i)];
+                }
+            }
+        }
+        2 => {
+            // symmetric with a band: tridiagonal or pentadiagonal
+            let band = 1 + rng.below(2) as usize;
+            for i in 0..n {
+                for j in 0..n {
+                    if i.abs_diff(j) > band {
+                        a[at(i, j)] = 0.0;
+                    } else if j < i {
+                        a[at(i, j)] = a[at(j, i)];
+                    }
+                }
+            }
+        }
+        3 => {
+            // upper or lower triangular
+            let upper = rng.chance(2, 3);
+            for i in 0..n {
+                for j in 0..n {
+                    if (upper && i > j) || (!upper && i < j) {
+                        a[at(i, j)] = 0.0;
+                    }
+                }
+            }
+        }
+        4 => {
+            // already upper Hessenberg (every column reduced)
+            for i in 0..n {
+                for j in 0..n {
+                    if i > j + 1 {
+                        a[at(i, j)] = 0.0;
+                    }
+                }
+            }
+        }
+        5 => {
+            // c * (exactly orthogonal): 2x2 blocks c/5 [[3,-4],[4,3]] * 5 = integer rotations of length 5, 13, 17 scaled to a
+            // common length 5*13*17, a signed permutation applied to the rows
+            let c = 5.0 * 13.0 * 17.0;
+            let rots = [(3.0, 4.0, 5.0), (5.0, 12.0, 13.0), (8.0, 15.0, 17.0), (4.0, 3.0, 5.0), (12.0, 5.0, 13.0)];
+            let mut b = vec![0.0; n * n];
+            let mut i = 0;
+            while i < n {
+                if i + 1 < n && rng.chance(3, 4) {
+                    let (x, y, l) = *rng.pick(&rots);
+                    let (x, y) = (x * c / l, y * c / l);
+                    b[at(i, i)] = x;
+                    b[at(i, i + 1)] = -y;
+                    b[at(i + 1, i)] = y;
+                    b[at(i + 1, i + 1)] = x;
+                    i += 2;
+                } else {
+                    b[at(i, i)] = if rng.chance(1, 2) { -c } else { c };
+                    i += 1;
+                }
+            }
+            // random row permutation with signs
+            let mut perm: Vec<usize> = (0..n).collect();
+            for k in (1..n).rev() {
+                let r = rng.below(k as u64 + 1) as usize;
+                perm.swap(k, r);
+            }
+            for i in 0..n {
+                let sg = if rng.chance(1, 2) { -1.0 } else { 1.0 };
+                for j in 0..n {
+                    a[at(i, j)] = sg * b[at(perm[i], j)];
+                }
+            }
+        }
+        6 => {
+            // c * Householder matrix of an integer vector, exact: (wᵀw) I − 2 w wᵀ  (symmetric AND orthogonal-times-scalar)
+            let w: Vec<f64> = (0..n).map(|_| rng.range(-4, 4) as f64).collect();
+            let ww: f64 = w.iter().map(|x| x * x).sum::<f64>().max(1.0);
+            for i in 0..n {
+                for j in 0..n {
+                    a[at(i, j)] = (if i == j { ww } else { 0.0 }) - 2.0 * w[i] * w[j];
+                }
+            }
+        }
+        7 => {
+            // skew-symmetric plus a constant diagonal (normal: Q c Qᵀ-like structure with a_ij = −a_ji)
+            let d = entry(rng, fl);
+            for i in 0..n {
+                a[at(i, i)] = d;
+                for j in 0..i {
+                    a[at(i, j)] = -a[at(j, i)];
+                }
+            }
+        }
+        8 => {
+            // symmetric Toeplitz / circulant / Hankel (every anti-diagonal constant: persymmetric)
+            let t: Vec<f64> = (0..2 * n).map(|_| { let x = entry(rng, fl); if x == 0.0 { 1.0 } else { x } }).collect();
+            let which = rng.below(3);
+            for i in 0..n {
+                for j in 0..n {
+                    a[at(i, j)] = match which {
+                        0 => t[i.abs_diff(j)],
+                        1 => t[(n + j - i) % n],
+                        _ => t[i + j],
+                    };
+                }
+            }
+        }
+        9 => {
+            // rank one u vᵀ with small integers (exact), or all entries equal, or a multiple of the identity plus rank one
+            let u: Vec<f64> = (0..n).map(|_| *rng.pick(&[1.0, 2.0, 3.0, -1.0, -2.0, 5.0])).collect();
+            let v: Vec<f64> = if rng.chance(1, 2) { u.clone() } else { (0..n).map(|_| *rng.pick(&[1.0, 2.0, 3.0, -1.0, -2.0, 5.0])).collect() };
+            let shift = if rng.chance(1, 2) { 0.0 } else { rng.range(-6, 6) as f64 };
+            let flat = rng.chance(1, 4);
+            for i in 0..n {
+                for j in 0..n {
+                    a[at(i, j)] = if flat { 3.0 } else { u[i] * v[j] } + if i == j { shift } else { 0.0 };
+                }
+            }
+        }
+        11 => {
+            // the leading entry of the sub-column (the one the sign choice and u1 are built from) is a tiny fraction
+            // (2^-20..2^-52, either sign) of the rest of its column: next to the "zero leading entry" case but not in it
+            let big = a.iter().fold(0.0f64, |m, x| m.max(x.abs()));
+            for j in 0..n.saturating_sub(1) {
+                if j == 0 || rng.chance(1, 2) {
+                    a[at(j + 1, j)] = tiny_rel(rng) * big;
+                }
+            }
+        }
+        _ => {
+            // diagonal / identity multiple
+            let same = rng.chance(1, 2);
+            let d0 = a[0];
+            for i in 0..n {
+                for j in 0..n {
+                    if i != j {
+                        a[at(i, j)] = 0.0;
+                    } else if same {
+                        a[at(i, j)] = d0;
+                    }
+                }
+            }
+        }
+    }
+    a
+}
+
+const BASES: u64 = 12;
+
+/// a relative perturbation 2^-k, k = 20..45 mostly (the window between "clearly different" and "rounding"), sometimes
+/// down to one ulp, sometimes a decimal 1e-8..1e-13, either sign
+fn tiny_rel(rng: &mut Rng) -> f64 {
+    let r = match rng.below(8) {
+        0 => 2f64.powi(-(rng.range(46, 52) as i32)),
+        1 => 10f64.powi(-(rng.range(8, 13) as i32)) * rng.uniform(1.0, 9.9),
+        2 => 2f64.powi(-(rng.range(20, 45) as i32)) * rng.uniform(1.0, 2.0),
+        _ => 2f64.powi(-(rng.range(20, 45) as i32)),
+    };
+    if rng.chance(1, 2) { -r } else { r }
+}
+
+/// An exactly structured matrix with ONE entry, ONE mirrored pair, one row/column or (rarely) every entry off its
+/// structure by a relative 2^-20..2^-45: within a relative 1e-8 of exact symmetry / triangularity / orthogonality /
+/// reduced form, but not within rounding of it.  A structural zero is moved to that fraction of the largest entry.
+/// The statement's identities hold for these like for any other matrix (the exact oracle judges them); code that
+/// classifies its input "up to rounding" with a tolerance and then takes a structured shortcut does not.
+fn near_structure(rng: &mut Rng, n: usize, base: u64) -> Vec<f64> {
+    let mut a = structured(rng, n, base);
+    if n == 0 {
+        return a;
+    }
+    let at = |i: usize, j: usize| i * n + j;
+    let big = a.iter().fold(0.0f64, |m, x| m.max(x.abs())).max(f64::MIN_POSITIVE);
+    let bump = |x: f64, rel: f64| if x == 0.0 { rel * big } else { x * (1.0 + rel) };
+    let i = rng.below(n as u64) as usize;
+    let mut j = rng.below(n as u64) as usize;
+    match rng.below(10) {
+        0..=3 => {
+            // one entry (off the diagonal when there is one: the diagonal carries no structure in most bases)
+            if i == j && n > 1 && rng.chance(3, 4) {
+                j = (j + 1 + rng.below(n as u64 - 1) as usize) % n;
+            }
+            let rel = tiny_rel(rng);
+            a[at(i, j)] = bump(a[at(i, j)], rel);
+        }
+        4 | 5 => {
+            // one mirrored pair, the two halves moved by different amounts
+            if i == j && n > 1 {
+                j = (j + 1) % n;
+            }
+            let (r1, r2) = (tiny_rel(rng), tiny_rel(rng));
+            a[at(i, j)] = bump(a[at(i, j)], r1);
+            a[at(j, i)] = bump(a[at(j, i)], r2 * 0.5);
+        }
+        6 => {
+            // a far corner: (n-1, 0) or (0, n-1), the entries a band / triangle / Hessenberg shape excludes
+            let rel = tiny_rel(rng);
+            let (p, q) = if rng.chance(1, 2) { (n - 1, 0) } else { (0, n - 1) };
+            a[at(p, q)] = bump(a[at(p, q)], rel);
+        }
+        7 => {
+            // one whole row or column
+            let rel = tiny_rel(rng);
+            let row = rng.chance(1, 2);
+            for k in 0..n {
+                let (p, q) = if row { (i, k) } else { (k, i) };
+                if p != q {
+                    a[at(p, q)] = bump(a[at(p, q)], rel * rng.uniform(0.5, 1.0));
+                }
+            }
+        }
+        8 => {
+            // the strict lower part: every entry by its own tiny amount (nearly symmetric / nearly triangular everywhere)
+            let k = rng.range(24, 44) as i32;
+            for p in 0..n {
+                for q in 0..p {
+                    let rel = 2f64.powi(-k) * rng.uniform(-1.0, 1.0);
+                    a[at(p, q)] = bump(a[at(p, q)], rel);
+                }
+            }
+        }
+        _ => {
+            // two independent single entries
+            for _ in 0..2 {
+                let (p, q) = (rng.below(n as u64) as usize, rng.below(n as u64) as usize);
+                let rel = tiny_rel(rng);
+                a[at(p, q)] = bump(a[at(p, q)], rel);
+            }
+        }
+    }
+    a
+}
+
 const KINDS: u64 = 13;
 
 pub fn generate(seed: u64, thorough: bool, emit: &mut dyn FnMut(String)) {
@@ -299,6 +657,37 @@ pub fn generate(seed: u64, thorough: bool, emit: &mut dyn FnMut(String)) {
             let kind = if thorough { (r as u64) % KINDS } else { *rng.pick(&[0u64, 0, 1, 3, 5, 6, 10, 10, 11, 12]) };
             let mut a = family(&mut rng, n, kind);
             rescale(&mut rng, &mut a, r + n, kind != 12);
+            emit_mat(emit, n, n, &a);
+        }
+    }
+    // near-structure families (hardening 4): every base structure at every size 3..10 (and a sample of 11..16), at the
+    // scales of the quantifier and a little beyond (2^+-30, 2^+-40, random)
+    let mut r4 = Rng::new(seed ^ 0xC14_0004);
+    let reps = if thorough { 120 } else { 3 };
+    for n in 3..=10usize {
+        for base in 0..BASES {
+            // the symmetric bases carry the widest class of "structured shortcut" (tridiagonal result): more of them
+            let reps = if base <= 1 { 2 * reps } else { reps };
+            for r in 0..reps {
+                let mut a = near_structure(&mut r4, n, base);
+                let e = match (r + n + base as usize) % 6 {
+                    0 => 30,
+                    1 => -30,
+                    2 => *r4.pick(&[40, -40]),
+                    3 => r4.range(-60, 60) as i32,
+                    _ => 0,
+                };
+                scale(&mut a, e);
+                emit_mat(emit, n, n, &a);
+            }
+        }
+    }
+    for n in 11..=16usize {
+        for _ in 0..(if thorough { 40 } else { 2 }) {
+            let base = r4.below(BASES);
+            let mut a = near_structure(&mut r4, n, base);
+            let e = *r4.pick(&[0, 0, 30, -30]);
+            scale(&mut a, e);
             emit_mat(emit, n, n, &a);
         }
     }
